@@ -16,7 +16,7 @@ from native.bounded._common import FLAGS, Checker
 
 BOUND = ("32 (x3 thorough) normalised monotonic circuits: 1..3 variables with ids drawn from 0..6 (non-contiguous scopes included), categorical inputs "
          "with 2..3 states and 1..3 units (softmax probabilities), Hadamard or Kronecker products, sum layers of arity 1..3 with softmax weights (dense or "
-         "mixing), optional second sum level, one output unit; four (fold, optimize) settings rotating; 20000 samples per circuit, torch seed fixed by "
+         "mixing), optional second sum level, one output unit; four (fold, optimize) settings rotating; plus 6 circuits whose sum weight is a Kronecker product of softmax matrices, compiled with optimize=True (tensor-dot layers), fold off / on; 20000 samples per circuit, torch seed fixed by "
          "VERIF_SEED; cell threshold |freq - p| <= 6.5 sqrt(p(1-p)/N) + 2/N (false alarm < 1e-8 per run)")
 RULE = "one case = (circuit index, fold, optimize, clause); distinct by that tuple"
 N = 20000
@@ -70,13 +70,38 @@ def build(rng):
     return Circuit(layers, in_layers, [out]), vs, dom, desc
 
 
+def _kron_weight_circuits():
+    """sum layers whose weight is a Kronecker product of two softmax matrices (row-stochastic, so the circuit stays normalised): with
+    optimize=True the sum is shattered into two tensor-dot layers, which must sample as well (each config twice: fold off / on)"""
+    out = []
+    for K, sa, sb, Ko in ((4, (1, 2), (1, 2), 1), (6, (2, 3), (1, 2), 2), (6, (1, 2), (2, 3), 2)):
+        for _ in range(2):
+            vs, dom = [0, 2], {0: 3, 2: 2}
+            ins = [CategoricalLayer(Scope([v]), K, num_categories=dom[v]) for v in vs]
+            h = HadamardLayer(K, arity=2)
+            w = P.Parameter.from_binary(P.KroneckerParameter(sa, sb), _softmax_w(sa), _softmax_w(sb))
+            s1 = SumLayer(K, Ko, 1, weight=w)
+            layers, in_layers, o = ins + [h, s1], {h: ins, s1: [h]}, s1
+            if Ko > 1:
+                s2 = SumLayer(Ko, 1, 1, weight=_softmax_w((1, Ko)))
+                layers.append(s2)
+                in_layers[s2] = [s1]
+                o = s2
+            desc = {"vars": vs, "domains": dom, "units": K, "arity": 1, "product": "hadamard", "mixing": False, "two_levels": Ko > 1,
+                    "sum_weight": f"kronecker{sa}x{sb}"}
+            out.append((Circuit(layers, in_layers, [o]), vs, dom, desc))
+    return out
+
+
 def run(tier, seed):
     ck = Checker("C15", BOUND, RULE, tier, seed)
     rng = np.random.default_rng(15_000 + seed)
     hits = []
-    for n in range(32 * (3 if tier == "thorough" else 1)):
-        sc, vs, dom, desc = build(rng)
-        fold, opt = FLAGS[n % 4]
+    items = [build(rng) for _ in range(32 * (3 if tier == "thorough" else 1))]
+    first_kron = len(items)
+    items += _kron_weight_circuits()
+    for n, (sc, vs, dom, desc) in enumerate(items):
+        fold, opt = FLAGS[n % 4] if n < first_kron else ((n - first_kron) % 2 == 1, True)
         base = dict(desc, circuit=n, seed=seed, fold=fold, optimize=opt)
 
         def go():
